@@ -89,10 +89,11 @@ func variadicIndexSafety(c *core.Ctx, R string) {
 				// `len(p) > i && p[i]`: the index is the right operand of a conjunction whose left operand establishes the length
 				ast.Inspect(u.Body, func(y ast.Node) bool {
 					be, isB := y.(*ast.BinaryExpr)
-					if !isB || be.Op != token.LAND || !(be.Y.Pos() <= ix.Pos() && ix.End() <= be.Y.End()) {
+					if !isB || (be.Op != token.LAND && be.Op != token.LOR) || !(be.Y.Pos() <= ix.Pos() && ix.End() <= be.Y.End()) {
 						return true
 					}
-					for _, a := range core.SplitCond(be.X, true) {
+					// `A && p[i]` evaluates the index when A holds, `A || p[i]` (De Morgan: `len(p) == 0 || !p[0]`) when A does not
+					for _, a := range core.SplitCond(be.X, be.Op == token.LAND) {
 						p := longEnough(u, core.Branch{Cond: a.E})
 						if (p > 0 && a.Val) || (p < 0 && !a.Val) {
 							ok2 = true
